@@ -141,6 +141,8 @@ type Sim struct {
 	FSCrashed      string
 	FSNames        []string
 	RecordFS       bool
+	nodeFS         map[int]int     // node -> FS points left until that node crashes (cluster engine)
+	OnNodeFSCrash  func(node int, at string) // bookkeeping of the harness, called on the crashing task before it dies
 }
 
 var active atomic.Pointer[Sim]
@@ -702,6 +704,23 @@ func FS(name string) {
 	if s.RecordFS {
 		s.FSNames = append(s.FSNames, name)
 	}
+	if left, ok := s.nodeFS[t.Node]; ok {
+		if left > 1 {
+			s.nodeFS[t.Node] = left - 1
+		} else {
+			delete(s.nodeFS, t.Node)
+			s.FSCrashed = name
+			s.Count("fault.fscrash")
+			s.Count("fscrash@" + name)
+			s.Logf("fs-crash of node %d at %s", t.Node, name)
+			if s.OnNodeFSCrash != nil {
+				s.OnNodeFSCrash(t.Node, name)
+			}
+			s.markCrashed(t.Node)
+			t.parkAs(stParked, "fs-crashed") // dead: never released
+			return
+		}
+	}
 	if s.CrashAtFS != 0 && s.fsHits == s.CrashAtFS {
 		s.FSCrashed = name
 		s.markCrashed(t.Node)
@@ -710,6 +729,21 @@ func FS(name string) {
 		t.parkAs(stParked, "fs-crashed") // dead: never released
 		return
 	}
+}
+
+// ArmNodeFSCrash makes node die at the k-th file-system effect boundary any of its
+// tasks reaches from now on (k >= 1); DisarmNodeFSCrash withdraws that.
+func (s *Sim) ArmNodeFSCrash(node, k int) {
+	if s.nodeFS == nil {
+		s.nodeFS = map[int]int{}
+	}
+	s.nodeFS[node] = k
+}
+
+func (s *Sim) DisarmNodeFSCrash(node int) bool {
+	_, ok := s.nodeFS[node]
+	delete(s.nodeFS, node)
+	return ok
 }
 
 // FSHits is the number of FS points passed so far.
